@@ -5,4 +5,7 @@ CHECKS = {
  "C05": {"text": "Exhaustive over every bipartite graph up to 4x4 (quick) / 4x5, 5x4, 5x5 with all insertion orders (thorough) against two independent maximum-matching oracles, plus thousands of generated event, chroma and note sets on exact lattices checked for validity, maximality and order-independence. Exhaustive where the domain is finite, sampled beyond; cannot establish absence for larger graphs.",
          "design_ref": "DESIGN.md section 3, C05", "note": BASE_NOTE,
          "technique": "property-based testing: exhaustive small-graph enumeration + Hypothesis-generated event/note sets vs brute-force maximum matching and validity predicate"},
+ "C13": {"text": "Thousands of generated labeled-interval arrays (contiguous and gapped) with crop points forced onto boundaries, inside intervals and beyond the span, checked point-wise against the labelling function before/after adjust_intervals/adjust_events, common-refinement and duration conservation for merge_labeled_intervals, closed-interval/later-wins labelling for interpolate_intervals/intervals_to_samples and the boundaries<->intervals inverse pair. Sampled, exact on the dyadic lattice; found and now guards the zero-duration defect (FX-03).",
+         "design_ref": "DESIGN.md section 3, C13", "note": BASE_NOTE,
+         "technique": "property-based testing: Hypothesis-generated interval arrays and crop points vs point-wise labelling-function oracle (metamorphic/round-trip)"},
 }
